@@ -33,6 +33,8 @@ pub struct GenCfg {
 	pub injective: bool,
 	/// comments may contain backslashes / tabs
 	pub hostile_docs: bool,
+	/// comment lines with backslashes (no control characters)
+	pub backslash_docs: bool,
 	pub docs: bool,
 	/// allow nested classes whose outer class is not in the set
 	pub outer_absent: bool,
@@ -60,6 +62,7 @@ impl Default for GenCfg {
 			enigma_safe: false,
 			injective: false,
 			hostile_docs: false,
+			backslash_docs: false,
 			docs: true,
 			outer_absent: true,
 			param_src_names: true,
@@ -92,6 +95,9 @@ pub const DOC_LINES: &[&str] = &[
 	"  ", "a # b",
 ];
 pub const HOSTILE_DOC_LINES: &[&str] = &["back\\slash", "lit\\n", "tab\there", "\\", "ends with cr\r", "\\t", "\\\\n"];
+/// backslashes in front of the letters escape notations use, and at the end of a line - but no control characters, so
+/// that formats which cannot express TAB / CR (Enigma) can still carry them
+pub const BACKSLASH_DOC_LINES: &[&str] = &["back\\slash", "lit\\n", "\\", "\\t", "\\\\n", "C:\\textures\\new\\0", "\"\\t\"", "ends with \\", "\\u0041 \\r", "\\\\"];
 
 #[derive(Clone, Debug)]
 pub struct RawType {
@@ -207,7 +213,14 @@ fn build_doc(cfg: &GenCfg, raw: &RawDoc) -> Option<String> {
 	if !cfg.docs || !pct(raw.has, 40) {
 		return None;
 	}
-	let n = DOC_LINES.len() + if cfg.hostile_docs { HOSTILE_DOC_LINES.len() } else { 0 };
+	let extra: &[&str] = if cfg.hostile_docs {
+		HOSTILE_DOC_LINES
+	} else if cfg.backslash_docs {
+		BACKSLASH_DOC_LINES
+	} else {
+		&[]
+	};
+	let n = DOC_LINES.len() + extra.len();
 	let lines: Vec<&str> = raw
 		.lines
 		.iter()
@@ -216,7 +229,7 @@ fn build_doc(cfg: &GenCfg, raw: &RawDoc) -> Option<String> {
 			if i < DOC_LINES.len() {
 				DOC_LINES[i]
 			} else {
-				HOSTILE_DOC_LINES[i - DOC_LINES.len()]
+				extra[i - DOC_LINES.len()]
 			}
 		})
 		.collect();
